@@ -262,6 +262,13 @@ func c17E2EFixed(c *Ctx) {
 		}
 		c17E2E(c, "e2e-flag-x-url", c17E2EProfile(), fl, reqs)
 	}
+	// -divide_by against sample units that are not their family's default (the scale has to carry
+	// both the unit factor and the ratio); includes a sample with an empty stack for Total
+	for _, dv := range []float64{4, 0.5, 1} {
+		p := c17E2EProfile()
+		p.SampleType[0].Unit, p.SampleType[1].Unit, p.SampleType[2].Unit = "nanoseconds", "kB", "ms"
+		c17E2E(c, "e2e-scale", p, c17Flags{divide: dv}, []c17Req{fg("si=0"), fg("si=1"), fg("si=2"), fg("si=2&mean=t")})
+	}
 	// the other options: given on the command line, overridden (or not) in the URL
 	for _, fl := range []c17Flags{
 		{gran: "functions", noinl: true, cols: true, trim: "/src", divide: 2},
